@@ -340,7 +340,17 @@ static int do_replay(Property *p, const std::string &path, bool verbose) {
   if (!f) { fprintf(stderr, "cannot open %s\n", path.c_str()); return 2; }
   json plan = json::parse(f);
   RunResult r;
+  // the per-run watchdog of the batch applies to a replay too: a run that does not come back is the violation "hang"
+  // (exit 1 = reproduced, like any other violation), never a replay that silently runs into the caller's time-out
+  signal(SIGALRM, [](int) {
+    static const char msg[] = "replay: the run exceeded the per-run watchdog and was stopped: hang (M-mem.crash hang(watchdog))\n";
+    ssize_t w = write(1, msg, sizeof msg - 1);
+    (void)w;
+    _exit(1);
+  });
+  alarm((unsigned)p->run_timeout_s);
   p->execute(plan, r, true);
+  alarm(0);
   if (verbose) for (auto &l : r.log) printf("%s\n", l.c_str());
   printf("replay: property=%s events=%llu sim_ms=%.3f trace_hash=%016llx violations=%zu\n", p->id.c_str(), (unsigned long long)r.events,
          r.sim_us / 1000.0, (unsigned long long)r.trace_hash, r.violations.size());
